@@ -36,12 +36,24 @@ OpsSet == {"vkey1", "vkey2", "boot1"}
 Histories == UNION {[1..n -> OpsSet] : n \in 0..MaxOps}
 W1 == M(<< <<U(Zero), T(258, A(<<VkeyW(9)>>))>> >>)
 W2 == M(<< <<U(Zero), A(<<VkeyW(9), VkeyW(9)>>)>>, <<U(One), T(258, A(<<NativeS(5)>>))>> >>)
-Cases == {[ws |-> w, aux |-> <<4, "none">>, dev |-> d, hist |-> h] : w \in WsVariants, d \in {<<<<-1>>, "none">>}, h \in Histories}
-    \cup UNION {{[ws |-> wa[1], aux |-> wa[2], dev |-> d, hist |-> h] : d \in Deviations(TxOf(wa[1], wa[2])), h \in {<<>>, <<"vkey1">>, <<"boot1">>, <<"vkey1", "boot1">>}} :
+NoDev == <<<<-1>>, "none">>
+NoPair == <<NoDev, NoDev, NoDev>>
+\* several deviations at once, one per PART (body, witness set, auxiliary data): for every part one representative node per deviation
+\* kind, all combinations over two and three parts (the parts are encoded separately and spliced in verbatim)
+PairKinds == {"w1", "w2", "w4", "w8", "wide", "indef", "chunk1", "chunk2"}
+Reps(t) == {CHOOSE d \in Deviations(t) : d[2] = k : k \in {x \in PairKinds : \E d \in Deviations(t) : d[2] = x}}
+PairSet == LET rb == Reps(Body) rw == Reps(W1) ra == Reps(AuxOf("tag")) IN
+           {<<b, w, NoDev>> : b \in rb, w \in rw} \cup {<<b, NoDev, a>> : b \in rb, a \in ra} \cup {<<NoDev, w, a>> : w \in rw, a \in ra}
+           \cup {<<b, w, a>> : b \in rb, w \in rw, a \in ra}
+Cases == {[ws |-> w, aux |-> <<4, "none">>, dev |-> d, hist |-> h, pair |-> NoPair] : w \in WsVariants, d \in {NoDev}, h \in Histories}
+    \cup {[ws |-> W1, aux |-> <<4, "tag">>, dev |-> <<<<-1>>, pr[1][2] \o "+" \o pr[2][2] \o "+" \o pr[3][2]>>, hist |-> h, pair |-> pr] : pr \in PairSet, h \in {<<>>, <<"vkey1", "boot1">>}}
+    \cup UNION {{[ws |-> wa[1], aux |-> wa[2], dev |-> d, hist |-> h, pair |-> NoPair] : d \in Deviations(TxOf(wa[1], wa[2])), h \in {<<>>, <<"vkey1">>, <<"boot1">>, <<"vkey1", "boot1">>}} :
                  wa \in {<<W1, <<4, "map">>>>, <<W2, <<4, "map">>>>, <<W1, <<4, "array">>>>, <<W1, <<4, "tag">>>>, <<W1, <<3, "map">>>>, <<W1, <<3, "array">>>>}}
 Init == c \in Cases
 Next == UNCHANGED c
-Bytes == Enc(TxOf(c.ws, c.aux), <<>>, c.dev[1], c.dev[2])
+Part(t, d) == Raw(Enc(t, <<>>, d[1], d[2]))
+Bytes == IF c.pair = NoPair THEN Enc(TxOf(c.ws, c.aux), <<>>, c.dev[1], c.dev[2])
+         ELSE Canon(A(<<Part(Body, c.pair[1]), Part(c.ws, c.pair[2]), Sp(245), Part(AuxOf(c.aux[2]), c.pair[3])>>))
 \* the body and witness-set spans of the (deviated) transaction, for the read-only views of a body alone / inside a block
 PartSpan(i) == LET it == Parse(Bytes) IN IF ~IsErr(it) /\ it.mt = 4 /\ Len(it.kids) >= 2 THEN Span(Bytes, it.kids[i]) ELSE <<>>
 EmitScn == Emit([t |-> "SCN", kind |-> "tx", bytes |-> Bytes, dev |-> c.dev[2], ops |-> c.hist, body |-> IF c.hist = <<>> THEN PartSpan(1) ELSE <<>>, ws |-> IF c.hist = <<>> THEN PartSpan(2) ELSE <<>>])
